@@ -392,6 +392,13 @@ Lemma monr_ignored01 (P : ev -> Prop) m evs t :
   monr step01 i01 t = Some m -> monr step01 i01 (evs ++ t) = Some m.
 Proof. intros H F M. induction F; simpl; auto. rewrite IHF. auto. Qed.
 
+(* the translated drain bound of core.rs is (at least) the bound in the definition of class DropDepth99 *)
+Lemma rounds_in_class i : (i >=? TEARDOWN_ROUNDS) = true -> (i >=? F4_CLASS_ROUNDS) = true.
+Proof.
+  assert (H : F4_CLASS_ROUNDS <= TEARDOWN_ROUNDS) by (vm_compute; discriminate).
+  rewrite !Z.geb_leb. intros G. apply Z.leb_le in G. apply Z.leb_le. lia.
+Qed.
+
 Lemma I01_phase mo k0 s pre s' :
   shape (mo :: k0) -> Tags (mo :: k0) s -> is_work mo = false -> handle mo s = (pre, s') ->
   I01 (mo :: k0) s -> I01 (pre ++ k0) s'.
@@ -501,11 +508,12 @@ Proof.
       destruct (PP (c :: l)) as [P1 P2]. rewrite P1, P2. rewrite wuids_runitems. simpl. rewrite app_nil_r. auto.
   - (* MDrain *)
     destruct (tops k0) eqn:T; [|discriminate]. inversion PH; subst p. destruct R as (R1 & R2 & R3 & R4).
-    destruct (i >=? TEARDOWN_ROUNDS).
+    destruct (i >=? TEARDOWN_ROUNDS) eqn:GE.
     + inversion E; subst pre s'. destruct (mainq s) as [|c l] eqn:M; simpl.
       * right. exists m. split; auto. exists L. split; auto.
         unfold phase_of. simpl. rewrite T. simpl. rewrite M. repeat split; auto.
-      * left. left. reflexivity.
+      * (* the loop gave up: with the translated bound this is exactly the class of F4 *)
+        left. left. rewrite (rounds_in_class i GE). reflexivity.
     + destruct (mainq s) as [|c l] eqn:M; inversion E; subst pre s'; right; exists m; (split; [auto|]); exists L; (split; [auto|]).
       * unfold phase_of. simpl. rewrite T. simpl. rewrite M. repeat split; auto.
       * match goal with |- context [phase_of ?k] => replace k with (map MDropItem (c :: l) ++ MDrain (i + 1) :: k0)
